@@ -67,6 +67,10 @@ fn main() {
     if std::env::var("TCMC_PANIC_TRACE").is_err() {
         static SHOWN: std::sync::atomic::AtomicUsize = std::sync::atomic::AtomicUsize::new(0);
         std::panic::set_hook(Box::new(|info| {
+            // remember where the panic came from: one inside the library under test is a finding,
+            // one inside the harness is a machinery error
+            let loc = info.location().map(|l| format!("{}:{}", l.file(), l.line())).unwrap_or_default();
+            util::LAST_PANIC.with(|c| *c.borrow_mut() = Some((loc, info.to_string().chars().take(300).collect())));
             if SHOWN.fetch_add(1, std::sync::atomic::Ordering::Relaxed) < 3 {
                 let msg: String = info.to_string().chars().take(300).collect();
                 eprintln!("(panic) {msg}");
